@@ -27,12 +27,16 @@ PROPS_MODULE = "BiotiteModel.Props.C16"
 DRIVER_MODULE = "BiotiteModel.Driver.C16"
 EXT_MODULES = []
 GEN_FILES = ["BiotiteModel/Gen/C16.lean"]
-RULE = ("exact streams: seeded small-integer/dyadic transformations, stacks (m=1..4, n=0..12), masks, "
+RULE = ("exact streams: seeded small-integer/dyadic transformations (float32/float64 and integer rotation arrays with "
+        "fractional translations), stacks (m=1..4, n=0..12), masks, "
         "broadcast combinations and malformed shapes through apply/as_matrix/_get_rotation_matrices/"
         "superimpose (svd tabulated) and the outlier/homolog anchor loops (inner fit stubbed), compared "
         "bit-exactly with the Lean model; float stream: random, planar, collinear, single-atom, duplicate, "
         "symmetric and mirrored point sets with rigid motions, noise 0..10, masks and stack/array "
-        "combinations through the unmodified functions, judged by the property oracle (orthonormal, det +1, "
+        "combinations through the unmodified functions; multi-chain protein/RNA complexes (2-4 chains, missing "
+        "terminal/internal residues in any chain of either structure, rigid copies, single models and stacks) through "
+        "the unmodified superimpose_homologs with a synthetic CCD, and their _find_matching_anchors result against "
+        "the Lean offset model; judged by the property oracle (orthonormal, det +1, "
         "matrix form, reproduction, model-wise action, RMSD not above an independent float64 quaternion "
         "optimum nor above 200+ perturbed placements, anchors). non-trivial = >= 2 atoms with a non-identity "
         "motion or an error branch; distinct = different ops / different float input")
@@ -40,15 +44,18 @@ TRUSTED = ["numpy float32/float64 arithmetic is exact on the small-integer/dyadi
            "LAPACK SVD (np.linalg.svd) is external: validated per output by the oracle, not modelled",
            "independent float64 quaternion (Horn) optimum used by the oracle as RMSD reference",
            "unittest-style patching of module globals (np.linalg.svd table, inner superimpose stub) in the exact streams"]
-ASSUMPTIONS = ["Kabsch optimality of the SVD-derived rotation is NOT proved; it is checked per output with tolerances",
+ASSUMPTIONS = ["RMSD tolerance of the oracle: 4e-6*scale plus the float32 conditioning term min(delta^2/g, 4*delta)/n on squared deviations (see _allowed_rmsd)",
+               "Kabsch optimality of the SVD-derived rotation is NOT proved; it is checked per output with tolerances",
                "float rounding is not modelled: theorems are over exact rationals / commutative rings",
-               "superimpose_homologs: the sequence alignment (C08) and the CCD-based backbone filter are inputs of the model"]
+               "superimpose_homologs: the per-chain sequence alignment (C08) is an input of the model (taken from the real code on single chain pairs); the backbone filter runs for real on a synthetic CCD (fixtures/C16/components.bcif)"]
 LEVEL_TEXT = ("partial: Lean theorems (all inputs) for the 4x4 matrix form = apply over any commutative ring, model-wise "
               "action on stacks incl. broadcasting and error branches, reproduction of the fitted coordinates, "
               "reflection correction yields an orthogonal matrix of determinant +1 for every orthogonal SVD output, "
               "centroid-to-centroid translation is optimal for any rotation (over Q), anchor set of the outlier/"
               "homolog variants is a shrinking sublist never below min_anchors and the returned transformation is "
-              "the fit on exactly the returned anchors. NOT proved: optimality of the rotation (SVD external) — "
+              "the fit on exactly the returned anchors, the anchor pairs _find_matching_anchors returns for chain k are "
+              "its local alignment columns offset by the cumulative lengths of the respective structure's previous "
+              "chains and stay inside both structures (C16_homolog_offsets, _in_range). NOT proved: optimality of the rotation (SVD external) — "
               "validated per output by the oracle with tolerances.")
 LEVEL_NOTE = "LAPACK SVD, float rounding, numpy broadcasting/quantile semantics are modelled or validated, not verified"
 TECHNIQUE = "Lean 4 proof (ring identities, completing the square, loop invariant by induction on iterations) + exact-rational correspondence + tolerance oracle"
@@ -734,7 +741,7 @@ def _gen_homc(rng, force_multichain=False):
     chains = []          # per chain: list of residue dicts
     pos = np.zeros(3)
     for ci in range(n_chains):
-        L = rng.randint(8, 30)
+        L = rng.randint(20, 34) if nuc else rng.randint(12, 30)   # long enough that the overlap aligns uniquely
         letters = [rng.choice(_NUC if nuc else _AA) for _ in range(L)]
         for i in range(1, L):                      # no equal neighbours: gap placement is unambiguous
             while letters[i] == letters[i - 1]:
@@ -754,11 +761,12 @@ def _gen_homc(rng, force_multichain=False):
             L = len(res)
             present = [True] * L
             r = rng.random()
-            if r < 0.35:
-                for i in range(rng.randint(1, 5)):             # N-terminal residues not resolved
+            dmax = max(1, min(5, L // 5))      # short deletions: a sequence method cannot pair residues uniquely
+            if r < 0.35:                       # when the remaining overlap is short / low-complexity (not a code defect)
+                for i in range(rng.randint(1, dmax)):          # N-terminal residues not resolved
                     present[i] = False
             elif r < 0.55:
-                for i in range(rng.randint(1, 5)):             # C-terminal
+                for i in range(rng.randint(1, dmax)):          # C-terminal
                     present[L - 1 - i] = False
             elif r < 0.65 and L >= 20:
                 i0 = rng.randint(8, L - 10)                    # one internal residue, long flanks
@@ -1015,6 +1023,25 @@ def _tol(*arrays):
     return 4e-6 * s        # ~10x the largest error observed on the unchanged tree (calibrated over 1500 cases)
 
 
+def _allowed_rmsd(X, Y0, ref_rmsd, tol):
+    """Largest RMSD a float32 Kabsch fit of Y0 onto X may report when a placement with `ref_rmsd` exists.
+    Besides the linear coordinate rounding `tol`, the float32 cross-covariance H carries an error
+    delta ~ 16·eps32·|H|; a rotation in the plane of singular values (s_i, s_j) is determined only up to
+    delta/(s_i+s_j), which costs at most min(delta²/g, 4·delta) in the sum of squared deviations, g being the
+    smallest pairwise sum (s2 ± s3).  Negligible for well-conditioned sets, it is what 'up to float32 rounding'
+    means for (nearly) collinear ones."""
+    import numpy as np
+    X = np.asarray(X, dtype=np.float64)
+    Y0 = np.asarray(Y0, dtype=np.float64)
+    Hm = (X - X.mean(axis=0)).T @ (Y0 - Y0.mean(axis=0))
+    sv = np.linalg.svd(Hm, compute_uv=False)
+    d = 1.0 if np.linalg.det(Hm) >= 0 else -1.0
+    g = sv[1] + d * sv[2]
+    delta = 16 * 6e-8 * float(np.sqrt((sv ** 2).sum()))
+    excess = 4 * delta if g <= 0 else min(delta * delta / g, 4 * delta)
+    return math.sqrt(ref_rmsd ** 2 + excess / len(X)) + tol
+
+
 def _check_transform(T, X, tag, v):
     """matrix form == apply, and model-wise action, on the real objects."""
     import numpy as np
@@ -1133,19 +1160,19 @@ def _oracle_fit(case):
         tol = _tol(f3, m3, fit3)
         r0 = _rmsd64(X, Y)
         ropt = math.sqrt(_horn_min_ssd(X, Y0) / n)
-        if r0 > ropt + tol:
+        if r0 > _allowed_rmsd(X, Y0, ropt, tol):
             v.append(("C16/superimpose/rmsd-above-optimum",
                       f"model {k}: RMSD {r0:.6g} but a rigid placement with {ropt:.6g} exists (tol {tol:.2g}; "
                       f"shape {case.get('shape')}, n={n}, noise {case.get('noise')}, mirror {case.get('mirror')})"))
             break
-        if case.get("rigid") and r0 > tol:
+        if case.get("rigid") and r0 > _allowed_rmsd(X, Y0, 0.0, tol):
             v.append(("C16/superimpose/rigid-copy-rmsd-not-zero", f"model {k}: RMSD {r0:.6g} for an exact rigid copy (tol {tol:.2g}, shape {case.get('shape')})"))
             break
         # perturbed placements of the *fitted* coordinates: rotate about the fixed centroid, best translation
         cx = X.mean(axis=0)
         Yc = Y - Y.mean(axis=0)
         best = min(_rmsd64(X - cx, Yc @ Q.T) for Q in pert)
-        if best < r0 - tol:
+        if r0 > _allowed_rmsd(X, Y0, best, tol):
             v.append(("C16/superimpose/perturbation-improves-rmsd", f"model {k}: RMSD {r0:.6g}, a perturbed placement reaches {best:.6g}"))
             break
         # the translation part: centroids coincide
@@ -1248,7 +1275,7 @@ def _oracle_woo(case):
             r0 = _rmsd64(X, fit3[k][anchors])
             ropt = math.sqrt(_horn_min_ssd(X, Y0) / len(anchors))
             tol = _tol(f3, m3, fit3)
-            if r0 > ropt + tol:
+            if r0 > _allowed_rmsd(X, Y0, ropt, tol):
                 v.append(("C16/without_outliers/anchor-rmsd-above-optimum", f"model {k}: anchor RMSD {r0:.6g} > optimum {ropt:.6g} on {len(anchors)} anchors"))
                 break
     return v
